@@ -81,6 +81,12 @@ def main():
         "engines": [
             {"name": "symx", "path": "symx/", "serves_properties": sorted(CLAIMED),
              "kind_free_text": "proxy-based symbolic executor for CPython on z3 (Int/Real), DFS over solver-decided branch decisions with re-execution, clause discharge by check-sat, per-path concrete cross-validation"},
+            {"name": "kern", "path": "symx/kern.py", "serves_properties": ["C03", "C04", "C05", "C06", "C09", "C11", "C16"],
+             "kind_free_text": "Python-AST -> z3 translator; ite-merged summary of find_minimal_distance regenerated from the repository source on every run"},
+            {"name": "fpkern", "path": "symx/fpkern.py", "serves_properties": ["C13"],
+             "kind_free_text": "slices the rescale statements of MidiFile.convert from its AST and decides the nearest-tick clause in QF_BVFP (IEEE-754 double) with z3"},
+            {"name": "crosshair", "path": "props/c20.py", "serves_properties": ["C20"],
+             "kind_free_text": "crosshair-tool 0.0.110 as an independent second opinion on the pure key / circle-of-fifths functions (counterexamples replayed; 'not confirmed' only recorded)"},
         ],
         "checks": checks,
         "not_applicable": [{"property_id": p, "reason": na.get(p, PENDING)} for p in ALL if p not in CLAIMED],
